@@ -195,6 +195,11 @@ type c06Stream struct {
 	extended  bool  // the stream needs the long form of the open token
 }
 
+// reqDone: the client considers the request written - it has sent END_STREAM, or the request has
+// no body (then it marks the stream as ended whatever its HEADERS frame said: finding
+// c06-trailers-without-body).
+func (st *c06Stream) reqDone() bool { return st.endSeen || st.body == nil }
+
 func (st *c06Stream) dead() bool {
 	if st.cs == nil {
 		return true
@@ -611,7 +616,7 @@ func (e *c06Env) afterOp(forgot bool) {
 	// a stream that is closed on both sides is forgotten
 	for _, id := range e.order {
 		st := e.streams[id]
-		if !st.aborted && st.endSeen && st.peerEnd && st.cs != nil {
+		if !st.aborted && st.reqDone() && st.peerEnd && st.cs != nil {
 			if !st.dead() {
 				e.waitDone(st)
 			}
@@ -1185,7 +1190,7 @@ func (e *c06Env) peerHeaders(id uint32, end bool, status int, cl int) string {
 			default:
 				st.peerEnd = true
 			}
-			if st.peerEnd && st.endSeen && !st.aborted {
+			if st.peerEnd && st.reqDone() && !st.aborted {
 				e.waitDone(st)
 				forgot = true
 			}
@@ -1253,7 +1258,7 @@ func (e *c06Env) peerData(id uint32, n, pad int, end bool) string {
 				st.buffered += int64(n)
 				if end {
 					st.peerEnd = true
-					if st.endSeen && !st.aborted {
+					if st.reqDone() && !st.aborted {
 						e.waitDone(st)
 						forgot = true
 					}
